@@ -292,6 +292,11 @@ def extract():
                         out["default_args"].append((mod, qual, ast.unparse(d)))
                 for s in f.body:
                     info.visit(s)
+                # `if <observer test>: return` at the top level of a function: everything after it runs only for observers
+                for idx, st in enumerate(f.body):
+                    if isinstance(st, ast.If) and any(w in ast.unparse(st.test) for w in OBSERVER_WORDS) \
+                            and len(st.body) == 1 and isinstance(st.body[0], ast.Return) and not st.orelse:
+                        out["observer_sites"].append((mod, qual, "after: " + ast.unparse(st.test), info.effects_of(f.body[idx + 1:]), []))
                 for attr, line in sorted(info.stores.items()):
                     out["self_first_use"].append((mod, qual, attr, line - f.lineno, info.loads.get(attr, 10 ** 6) - f.lineno))
             def walk(body, cls, prefix):
